@@ -746,6 +746,15 @@ func (f *Frame) enterLoop(li *loopInfo) {
 				f.vc.assume(fmt.Sprintf("(>= %s %s)", f.vc.get(f.cur, "next"), old))
 				continue
 			}
+			if bases := f.loopStoreBases(li, c); len(bases) > 0 {
+				// the loop writes this field only through stores at loop-invariant objects: only those cells change
+				cur := f.vc.get(f.cur, c)
+				for _, b := range bases {
+					cur = store(cur, b, f.vc.fresh(c+"_lv", elemSortOf(f.vc.comps[c].sort)))
+				}
+				f.vc.set(f.cur, c, cur)
+				continue
+			}
 			f.vc.havocComp(f.cur, c)
 		}
 	}
